@@ -42,15 +42,18 @@ from runner import Exploration, Finding
 
 SPEC = {
     "prop": "C20",
-    "lean_targets": ["InfernoVerif.Props.C20"],
-    "prop_files": ["InfernoVerif/Props/C20.lean"],
+    "lean_targets": ["InfernoVerif.Props.C20", "InfernoVerif.Props.C20Glue"],
+    "translate": ["Interpolation", "Extrapolation"],
+    "prop_files": ["InfernoVerif/Props/C20.lean", "InfernoVerif/Props/C20Glue.lean"],
     "lemma_files": ["InfernoVerif/Lemmas/Dist.lean", "InfernoVerif/Lemmas/Isi.lean", "InfernoVerif/Lemmas/VP.lean"],
     "model_files": ["InfernoVerif/Model/Interp.lean", "InfernoVerif/Model/InterpR.lean",
                     "InfernoVerif/Model/Dist.lean", "InfernoVerif/Model/DistR.lean",
                     "InfernoVerif/Model/Isi.lean", "InfernoVerif/Model/VP.lean"],
     "driver": "drivers/C20.lean",
+    "driver_targets": ["InfernoVerif.Model.Interp", "InfernoVerif.Model.Dist", "InfernoVerif.Model.Isi", "InfernoVerif.Model.VP"],
     "assumptions": [
-        "formula models are hand transcriptions (the AST translator is not available); the Float copy is tied to the "
+        "interp/extrap: the hand-written ℝ copies are PROVED equal (Props/C20Glue.lean) to the definitions regenerated from /repo's "
+        "source by the translator on every run; distribution formulas are hand transcriptions: the Float copy is tied to the "
         "Python functions by differential execution, the ℝ copy to the Float copy by textual identity of the definition blocks",
         "tensors are modelled as scalars (kernels and distribution formulas are element-wise); float64 tensor arguments "
         "(`_astensorsfloat` leaves tensors untouched; Python-float arguments would be computed in float32)",
